@@ -252,6 +252,9 @@ UNITS["C13"] = [
     _k("c13_glyphs_number_ident_split_tiles_the_token_5_bytes", "fea-rs", "fea-rs/src/parse/grammar/metrics.rs",
        ["fea_rs::parse::grammar::metrics::split_ident_with_hyphen", "fea_rs::parse::grammar::metrics::take_next_token"], "bounded",
        "every valid UTF-8 token text of exactly 5 bytes", "any token text", "same as the <= 4 byte obligation", tiers=("thorough",), timeout_s=1800),
+    _k("c13_validate_glyph_name_total_and_positions_in_range", "fea-rs", "fea-rs/src/parse/grammar/glyph.rs", ["fea_rs::parse::grammar::glyph::validate_glyph_name"], "bounded",
+       "every byte string of 1..=6 bytes", "non-empty name",
+       "no panic; Invalid(pos): pos inside the name, at the first disallowed byte (the caller slices raw[pos..]); Valid / MaybeRange: every byte allowed; MaybeRange <=> a '-' is present (the trigger of glyph-range splitting)"),
     _k("c13_lexer_cover", "fea-rs", "fea-rs/src/parse/lexer.rs", [], "complete", "", "", "identifier, non-ASCII character, number reachable in the companion's input generator", kind="cover", timeout_s=1800, on_demand=True),
 ]
 
